@@ -10,6 +10,11 @@
 //!   pd  <hex>                                PlutusData::from_bytes -> to_bytes, hash_plutus_data
 //!   pdl <hex>                                PlutusList::from_bytes -> to_bytes
 //!   fb  <hex>                                FixedTransactionBody::from_bytes -> original_bytes, tx_hash
+//!   fbs <hex>                                FixedTransactionBodies::from_bytes -> every original_bytes / tx_hash
+//!   blk <hex> <claimed header bytes>         FixedBlock::from_bytes -> bodies as above, block_hash
+//!   vblk <hex> <claimed header bytes>        FixedVersionedBlock::from_bytes -> era code + the same
+//!     observation: ok [era=<code>] n=<count> o=<orig,orig,...|-> hq=<y|n per body: tx_hash is Blake2b-256 of orig>
+//!                  [bh=<the bytes block_hash is Blake2b-256 of, among the claimed header and the input, or ?hash>]
 //! Operations
 //!   av:<vk>:<sig>  ab:<vk>:<sig>:<cc>:<attr>  sb:<body>  sw:<wits>  sx:<aux>  vl:<0|1>
 //!   sv:<sk32>:<pre>[:<vk>:<sig>]                       sign_and_add_vkey_signature
@@ -232,8 +237,49 @@ fn exec(toks: &[String]) -> String {
                 format!("ok o={} hp={}", hx(&o), hp)
             }
         },
+        "fbs" if toks.len() == 2 => match FixedTransactionBodies::from_bytes(uh(&toks[1])) {
+            Err(_) => "err".into(),
+            Ok(bs) => format!("ok {}", bodies_obs(&bs)),
+        },
+        "blk" if toks.len() == 3 => match FixedBlock::from_bytes(uh(&toks[1])) {
+            Err(_) => "err".into(),
+            Ok(b) => format!("ok {} bh={}", bodies_obs(&b.transaction_bodies()), block_hash_pre(&b, &uh(&toks[1]), &uh(&toks[2]))),
+        },
+        "vblk" if toks.len() == 3 => match FixedVersionedBlock::from_bytes(uh(&toks[1])) {
+            Err(_) => "err".into(),
+            Ok(v) => { let b = v.block();
+                format!("ok era={} {} bh={}", v.era() as u32, bodies_obs(&b.transaction_bodies()), block_hash_pre(&b, &uh(&toks[1]), &uh(&toks[2]))) }
+        },
         _ => "harness-badcase".into(),
     }
+}
+
+fn bodies_obs(bs: &FixedTransactionBodies) -> String {
+    let mut o: Vec<String> = vec![];
+    let mut hq = String::new();
+    for i in 0..bs.len() {
+        let b = bs.get(i);
+        let ob = b.original_bytes();
+        hq.push(if blake2b256(&ob).to_vec() == b.tx_hash().to_bytes() { 'y' } else { 'n' });
+        o.push(hx(&ob));
+    }
+    format!("n={} o={} hq={}", bs.len(), if o.is_empty() { "-".to_string() } else { o.join(",") }, if hq.is_empty() { "-".into() } else { hq })
+}
+
+/// the bytes the block hash is taken over: the claimed header slice, else the input or the input without up to
+/// 8 trailing bytes, else (versioned block) the input without its 2..10-byte prefix
+fn block_hash_pre(b: &FixedBlock, input: &[u8], claimed_header: &[u8]) -> String {
+    let h = b.block_hash().to_bytes();
+    if blake2b256(claimed_header).to_vec() == h { return hx(claimed_header); }
+    for skip in 0..11usize {
+        for cut in 0..9usize {
+            if skip + cut < input.len() {
+                let c = &input[skip..input.len() - cut];
+                if blake2b256(c).to_vec() == h { return format!("whole:{}", hx(c)); }
+            }
+        }
+    }
+    format!("?{}", hex::encode(&h))
 }
 
 fn gen(dir: &str) {
